@@ -328,6 +328,17 @@ func checkC04(p *Program, r *Report) {
 	keyPureRule(p, r, "C04.pure", []string{"NewMaster", "(*ExtendedKey).Child", "(*ExtendedKey).Neuter"}, "derivation leaves its inputs untouched")
 	r.Floor("C04.pure", 3)
 	r.Floor("C04.pad", 1)
+	// round 5 (C04-agent5-m1): Neuter refuses a key only because chaincfg's registry does not know its version bytes —
+	// a private table of the built-in networks refuses every network the application registered itself
+	if nf := p.Func("hdkeychain", "(*ExtendedKey).Neuter"); nf != nil {
+		if rejectionVocabulary(p, r, "C04.accepts", nf, []string{`call .*chaincfg\.HDPrivateKeyToPublicKeyID#1`, `call .*chaincfg\.HDPrivateKeyToPublicKeyID`},
+			"the registry's answer for the key's version bytes") == 0 {
+			r.Unresolved("C04.accepts", "refusal of Neuter for unknown version bytes")
+		}
+	} else {
+		r.Unresolved("C04.accepts", "(*ExtendedKey).Neuter")
+	}
+	r.Floor("C04.accepts", 1)
 
 	child := p.Func("hdkeychain", "(*ExtendedKey).Child")
 	master := p.Func("hdkeychain", "NewMaster")
